@@ -623,6 +623,52 @@ func engineHash(ctx *engineCtx) {
 			ctx.sample(map[string]any{"kind": "vehicle", "coq_term": term, "hash_input_len": len(b)})
 		}
 	}
+	// vehicle pairs: one own field changed (or not): hash inputs must differ exactly when the data differs
+	for i := 0; i < nVeh; i++ {
+		v := g.vehicle()
+		if v.Position == nil {
+			v.Position = &gtfs.Position{}
+		}
+		m := *v
+		pos := *v.Position
+		m.Position = &pos
+		what := ""
+		switch g.r.Intn(8) {
+		case 0, 1: // odometer: a double - neighbours beyond float32 precision, tiny fractions, beyond the float32 range
+			base := []float64{16777216, 16777217, 1234.5, 1e39, 3e38, 0.1, 9007199254740992}[g.r.Intn(7)]
+			v.Position.Odometer = ptr(base)
+			m.Position.Odometer = ptr([]float64{base + 1, base * 1.0000001, base + 0.00001, base * 10}[g.r.Intn(4)])
+			what = "odometer"
+		case 2:
+			v.Position.Latitude, m.Position.Latitude = ptr(float32(40.5)), ptr(float32(40.500004))
+			what = "latitude"
+		case 3:
+			m.StopID = ptr(g.str() + "x")
+			what = "stop id"
+		case 4:
+			m.CurrentStopSequence = ptr(g.u32())
+			what = "current stop sequence"
+		case 5:
+			m.OccupancyPercentage = ptr(g.u32())
+			what = "occupancy percentage"
+		case 6:
+			m.CongestionLevel = gtfs.CongestionLevel((int(v.CongestionLevel) + 1) % 5)
+			what = "congestion level"
+		default:
+			what = "nothing"
+		}
+		b1, r1 := hashVehicleBytes(v)
+		b2, r2 := hashVehicleBytes(&m)
+		ctx.evaluations++
+		same := reflect.DeepEqual(vehData(v), vehData(&m))
+		if !r1.panicked && !r2.panicked && (string(b1) == string(b2)) != same {
+			ctx.violate("vehicle-hash-misses-change", fmt.Sprintf("vehicles differing in [%s] (data equal=%v) have equal hash input=%v", what, same, string(b1) == string(b2)),
+				map[string]any{"a": cVehicleH(v), "b": cVehicleH(&m), "difference": what})
+		}
+		if i%4 == 0 {
+			vehCases = append(vehCases, cPair(cVehicleH(&m), cBytes(b2)))
+		}
+	}
 	kinds := map[string]int{}
 	for i := 0; i < nPairs; i++ {
 		t := g.trip()
